@@ -127,8 +127,10 @@ def run_units(units: list[Unit], jobs: int = 16) -> list[dict]:
     _UNITS = units
     if jobs <= 1 or len(units) <= 1:
         return [_run_unit(u) for u in units]
+    # one forked process per unit: nothing a harness registers (models, contracts, caches, z3
+    # term ids) can leak into another unit, so a unit's verdict does not depend on scheduling
     ctx = mp.get_context("fork")
-    with ctx.Pool(min(jobs, len(units))) as pool:
+    with ctx.Pool(min(jobs, len(units)), maxtasksperchild=1) as pool:
         return pool.map(_worker, range(len(units)), chunksize=1)
 
 
